@@ -163,7 +163,19 @@ fn validator_bodies(cx: &mut Ctx) {
     } else {
         cx.fail(rule, &format!("{}/validate_pos_params/scan", rule), &f.loc(vp), "validate_pos_params does not scan posonlyargs.iter().chain(args.iter()) once with skip_while(no default).skip_while(default).next(): a default before `/` followed by a non-default after it (or similar) escapes");
     }
-    if t.contains("ifletSome(invalid)=first_invalid{returnErr(LexicalError{error:LexicalErrorType::DefaultArgumentError,location:invalid.def.range.start(),});}") {
+    let vp_exits = sm::exits(&vp.block);
+    let err_exits: Vec<&sm::Exit> = vp_exits.iter().filter(|x| x.result.starts_with("Err(")).collect();
+    let ok_exits: Vec<&sm::Exit> = vp_exits.iter().filter(|x| x.result == "Ok(())").collect();
+    let err_ok = err_exits.len() == 1 && {
+        let x = err_exits[0];
+        // under `first_invalid ~ Some(v)`, at v.def.range.start()
+        let bound: Option<String> = x.conds.iter().find_map(|c| c.strip_prefix("first_invalid~Some(").and_then(|r| r.strip_suffix(')')).map(|v| v.to_string()));
+        match bound {
+            Some(v) => x.result.contains("LexicalErrorType::DefaultArgumentError") && x.result.contains(&format!("location:{}.def.range.start()", v)),
+            None => false,
+        }
+    };
+    if err_ok && !ok_exits.is_empty() {
         cx.ok(rule, "validate_pos_params: offending parameter => Err(DefaultArgumentError) at its start");
     } else {
         cx.fail(rule, &format!("{}/validate_pos_params/error", rule), &f.loc(vp), "validate_pos_params does not return DefaultArgumentError at the offending parameter");
@@ -180,29 +192,42 @@ fn parse_args_rules(cx: &mut Ctx) {
     };
     let Some(pa) = f.free_fns("parse_args").into_iter().next() else { return cx.anchor_missing(rule, "parse_args") };
     let t = sm::tsx(&pa.block);
-    let checks: [(&str, &str, &str); 5] = [
-        ("dup-keyword", "ifkeyword_names.contains(keyword_name){returnErr(LexicalError{error:LexicalErrorType::DuplicateKeywordArgumentError(keyword_name.to_string(),),location:start,});}", "a repeated keyword argument is rejected with DuplicateKeywordArgumentError at the keyword's start"),
-        ("record-keyword", "keyword_names.insert(keyword_name.clone());", "every named keyword is inserted into keyword_names"),
-        ("double-star", "}else{double_starred=true;}", "a `**` argument (name None) sets double_starred"),
-        ("positional-after-keyword", "if!keywords.is_empty()&&!is_starred(&value){returnErr(LexicalError{error:LexicalErrorType::PositionalArgumentError,location:value.start(),});", "a positional (non-starred) argument after a keyword argument is rejected"),
-        ("unpack-after-double-star", "}elseifdouble_starred{returnErr(LexicalError{error:LexicalErrorType::UnpackedArgumentError,location:value.start(),});}", "any positional/starred argument after `**` is rejected"),
+    let ex = sm::exits(&pa.block);
+    let has = |x: &sm::Exit, needle: &str| x.conds.iter().any(|c| c.contains(needle));
+    let starred_test = |x: &sm::Exit| x.conds.iter().any(|c| {
+        let c = c.replace("is_starred(&value)", "value.is_starred_expr()");
+        c == "!keywords.is_empty()&&!value.is_starred_expr()"
+    });
+    let checks: [(&str, bool, &str); 5] = [
+        ("dup-keyword", ex.iter().any(|x| x.result.contains("DuplicateKeywordArgumentError(keyword_name.to_string()") && x.result.contains("location:start") && has(x, "keyword_names.contains(keyword_name)") && has(x, "name~Some((start,end,name))")), "a repeated keyword argument is rejected with DuplicateKeywordArgumentError at the keyword's start"),
+        ("record-keyword", t.contains("keyword_names.insert(keyword_name.clone());"), "every named keyword is inserted into keyword_names"),
+        ("double-star", {
+            let mut ok = false;
+            sm::for_each_expr_in_block(&pa.block, |e| {
+                if let Some((scrut, brs)) = lr::branches(e) {
+                    if scrut == "&name" || scrut == "name" {
+                        for b in &brs {
+                            if matches!(b.pat, lr::CPat::Wild | lr::CPat::NoneP) && b.body.len() == 1 && sm::tsc(b.body[0]) == "double_starred=true;" {
+                                ok = true;
+                            }
+                        }
+                    }
+                }
+            });
+            ok && t.matches("double_starred=").count() == 2
+        }, "a `**` argument (name None) sets double_starred (and nothing resets it)"),
+        ("positional-after-keyword", ex.iter().any(|x| x.result.contains("LexicalErrorType::PositionalArgumentError") && x.result.contains("location:value.start()") && has(x, "name~None") && starred_test(x)), "a positional (non-starred) argument after a keyword argument is rejected"),
+        ("unpack-after-double-star", ex.iter().any(|x| x.result.contains("LexicalErrorType::UnpackedArgumentError") && x.result.contains("location:value.start()") && has(x, "name~None") && x.conds.iter().any(|c| c == "double_starred")), "any positional/starred argument after `**` is rejected"),
     ];
-    for (k, frag, what) in checks {
-        if t.contains(frag) {
-            cx.ok(rule, what);
+    for (key, ok, what) in checks {
+        if ok {
+            cx.ok(rule, &format!("parse_args: {}", what));
         } else {
-            cx.fail(rule, &format!("{}/{}", rule, k), &f.loc(pa), &format!("parse_args: missing or altered: {}", what));
+            cx.fail(rule, &format!("{}/{}", rule, key), &f.loc(pa), &format!("parse_args: missing or altered: {}", what));
         }
     }
-    // the duplicate test precedes the insert; both inside `if let Some(keyword_name) = &name`
-    let p1 = t.find("keyword_names.contains(keyword_name)");
-    let p2 = t.find("keyword_names.insert(keyword_name.clone())");
-    if !(p1.is_some() && p2.is_some() && p1 < p2) {
-        cx.fail(rule, &format!("{}/order", rule), &f.loc(pa), "the duplicate test does not precede the insert");
-    }
-    match f.free_fns("is_starred").into_iter().next() {
-        Some(s) if sm::tsx(&s.block) == "{exp.is_starred_expr()}" => {}
-        _ => cx.fail(rule, &format!("{}/is_starred", rule), &f.rel, "is_starred is not exp.is_starred_expr()"),
+    if f.free_fns("is_starred").into_iter().next().map_or(false, |s| sm::tsx(&s.block) != "{exp.is_starred_expr()}") {
+        cx.fail(rule, &format!("{}/is_starred", rule), &f.rel, "is_starred is not exp.is_starred_expr()");
     }
 }
 
@@ -258,60 +283,127 @@ fn bracket_arms(cx: &mut Ctx) {
     let Some((_, m)) = lr::consume_character_arms(&lx) else { return cx.anchor_missing(rule, "consume_character") };
     let open = [('(', "Lpar"), ('[', "Lsqb"), ('{', "Lbrace")];
     let close = [(')', "Rpar"), (']', "Rsqb"), ('}', "Rbrace")];
-    let mut arms: BTreeMap<char, String> = BTreeMap::new();
+    // abstract execution of each bracket arm (private helpers are interpreted in place)
+    let mut arms: BTreeMap<char, lr::ArmResult> = BTreeMap::new();
+    let mut reached_writes: BTreeSet<String> = BTreeSet::new();
     for arm in &m.arms {
-        if let syn::Pat::Lit(l) = &arm.pat {
-            if let syn::Lit::Char(c) = &l.lit {
-                arms.insert(c.value(), sm::tsc(&arm.body));
+        let (chars, res) = lr::interp_arm(arm);
+        for op in &res.nesting_ops {
+            if let Some(line) = op.split('@').nth(2) {
+                reached_writes.insert(line.trim_end_matches("/nz").to_string());
             }
+        }
+        if chars.len() == 1 {
+            arms.insert(chars[0], res);
         }
     }
     for (c, tok) in open {
-        let want = format!("{{self.eat_single_char(Tok::{});self.nesting+=1;}}", tok);
         match arms.get(&c) {
-            Some(b) if *b == want => cx.ok(rule, &format!("`{}`: emit {}, nesting += 1", c, tok)),
-            Some(b) => cx.fail(rule, &format!("{}/open/{}", rule, tok), &lx.rel, &format!("arm `{}` is `{}`, its siblings are `emit; nesting += 1`", c, b)),
+            Some(r) => {
+                let emit_ok = r.emits.len() == 1 && r.emits[0].tok == tok && r.emits[0].spelled == c.to_string() && r.emits[0].s_ok && r.emits[0].e_ok;
+                let ops: Vec<String> = r.nesting_ops.iter().map(|o| o.split('@').take(2).collect::<Vec<_>>().join("@")).collect();
+                if emit_ok && ops == ["+=@1"] && r.errors.is_empty() && r.unrecognised.is_empty() {
+                    cx.ok(rule, &format!("`{}`: emit {}, nesting += 1", c, tok));
+                } else {
+                    cx.fail(rule, &format!("{}/open/{}", rule, tok), &lx.rel, &format!("arm `{}`: emits {:?}, nesting operations {:?}, errors {:?}; its siblings are `emit; nesting += 1`", c, r.emits.iter().map(|e| e.tok.clone()).collect::<Vec<_>>(), ops, r.errors));
+                }
+            }
             None => cx.fail(rule, &format!("{}/open/{}/missing", rule, tok), &lx.rel, &format!("no arm for `{}`", c)),
         }
     }
     for (c, tok) in close {
-        let want = format!("{{self.eat_single_char(Tok::{});ifself.nesting==0{{returnErr(LexicalError{{error:LexicalErrorType::NestingError,location:self.get_pos(),}});}}self.nesting-=1;}}", tok);
         match arms.get(&c) {
-            Some(b) if *b == want => cx.ok(rule, &format!("`{}`: emit {}, nesting == 0 => Err(NestingError), nesting -= 1", c, tok)),
-            Some(b) => cx.fail(rule, &format!("{}/close/{}", rule, tok), &lx.rel, &format!("arm `{}` is `{}`: it does not test nesting == 0 => Err(NestingError) before decrementing as its siblings do", c, b)),
+            Some(r) => {
+                let emit_ok = r.emits.len() == 1 && r.emits[0].tok == tok && r.emits[0].spelled == c.to_string() && r.emits[0].s_ok && r.emits[0].e_ok;
+                let err_ok = r.errors == vec![("NestingError".to_string(), 1usize)];
+                // the decrement happens after the character is consumed, on the path where nesting == 0 is excluded
+                let dec_ok = r.nesting_ops.len() == 1 && r.nesting_ops[0].starts_with("-=@1@") && r.nesting_ops[0].ends_with("/nz");
+                if emit_ok && err_ok && dec_ok && r.unrecognised.is_empty() {
+                    cx.ok(rule, &format!("`{}`: emit {}, nesting == 0 => Err(NestingError), nesting -= 1", c, tok));
+                } else {
+                    cx.fail(rule, &format!("{}/close/{}", rule, tok), &lx.rel, &format!("arm `{}`: emits {:?}, errors {:?}, nesting operations {:?}: it does not test nesting == 0 => Err(NestingError) before decrementing as its siblings do", c, r.emits.iter().map(|e| e.tok.clone()).collect::<Vec<_>>(), r.errors, r.nesting_ops));
+                }
+            }
             None => cx.fail(rule, &format!("{}/close/{}/missing", rule, tok), &lx.rel, &format!("no arm for `{}`", c)),
         }
     }
     match lr::lexer_method(&lx, "consume_normal") {
-        Some(f) if sm::tsx(&f.block).contains("ifself.nesting>0{returnErr(LexicalError{error:LexicalErrorType::Eof,location:tok_pos,});}") => cx.ok(rule, "end of input inside brackets => Err(Eof)"),
-        Some(f) => cx.fail(rule, &format!("{}/eof", rule), &lx.loc(f), "end of input with open brackets is not reported as Err(Eof)"),
+        Some(f) => {
+            let t = sm::tsc(&f.block);
+            let positive = ["if0<self.nesting{", "ifself.nesting!=0{", "if0!=self.nesting{", "if1<=self.nesting{"];
+            let ok = positive.iter().any(|p| t.split(p).nth(1).map_or(false, |rest| rest.starts_with("returnErr(LexicalError{") && rest.split('}').next().map_or(false, |x| x.contains("LexicalErrorType::Eof"))));
+            if ok {
+                cx.ok(rule, "end of input inside brackets => Err(Eof)");
+            } else {
+                cx.fail(rule, &format!("{}/eof", rule), &lx.loc(f), "end of input with open brackets is not reported as Err(Eof)");
+            }
+        }
         None => cx.anchor_missing(rule, "consume_normal"),
     }
-    // nesting is written nowhere else
-    let all = sm::tsx(&lx.file);
-    let writes = all.matches("self.nesting+=1").count() + all.matches("self.nesting-=1").count();
-    if writes != 6 || all.matches("self.nesting=").count() != all.matches("self.nesting==").count() {
-        cx.fail(rule, &format!("{}/writers", rule), &lx.rel, &format!("{} increments/decrements of nesting (6 expected) or a direct assignment exists", writes));
+    // nesting is written nowhere else: every syntactic write is one the arm interpreter reached
+    let mut writes: BTreeSet<String> = BTreeSet::new();
+    let mut assigns = 0;
+    for (f, _) in lr::lexer_methods(&lx) {
+        sm::for_each_expr_in_block(&f.block, |e| match e {
+            syn::Expr::Binary(b) if sm::tsc(&b.left) == "self.nesting" && matches!(b.op, syn::BinOp::AddAssign(_) | syn::BinOp::SubAssign(_)) => {
+                writes.insert(sm::line(syn::spanned::Spanned::span(&b.op)).to_string());
+            }
+            syn::Expr::Assign(a) if sm::tsc(&a.left) == "self.nesting" => assigns += 1,
+            _ => {}
+        });
+    }
+    if writes.is_subset(&reached_writes) && assigns == 0 && !writes.is_empty() {
+        cx.ok(rule, &format!("nesting is written only in the bracket arms ({} sites)", writes.len()));
+    } else {
+        cx.fail(rule, &format!("{}/writers", rule), &lx.rel, &format!("nesting is written at lines {:?} of lexer.rs, of which the bracket arms reach {:?} ({} direct assignments)", writes, reached_writes, assigns));
     }
 }
 
 fn indentation_errors(cx: &mut Ctx) {
     let rule = "C04.L2";
     cx.rule(rule, "indentation rules: levels are compared with compare_strict (TabError when tabs and spaces disagree in direction, both branches); the dedent loop pops while Less, stops only on Equal and returns IndentationError on Greater");
-    cx.floor(rule, 4);
+    cx.floor(rule, 3);
     let Some(lx) = lr::load_lexer(cx, rule) else { return };
     match lx.method("IndentationLevel", "compare_strict") {
         None => cx.anchor_missing(rule, "IndentationLevel::compare_strict"),
         Some(m) => {
-            let t = sm::tsx(&m.block);
-            let less = t.contains("Ordering::Less=>{ifself.spaces<=other.spaces{Ok(Ordering::Less)}else{Err(LexicalError{location,error:LexicalErrorType::TabError,})}}");
-            let greater = t.contains("Ordering::Greater=>{ifself.spaces>=other.spaces{Ok(Ordering::Greater)}else{Err(LexicalError{location,error:LexicalErrorType::TabError,})}}");
-            let equal = t.contains("Ordering::Equal=>Ok(self.spaces.cmp(&other.spaces)),");
-            let scrut = t.starts_with("{matchself.tabs.cmp(&other.tabs){");
-            if less && greater && equal && scrut {
-                cx.ok(rule, "compare_strict: fewer tabs & more spaces (or the reverse) => TabError; equal tabs => compare spaces");
+            // interpreted over the 3 x 3 partition (tabs <,=,> ; spaces <,=,>)
+            let methods = |recv: &crate::eval::V, name: &str, args: &[crate::eval::V]| -> Option<crate::eval::V> {
+                match (recv, name, args.first()) {
+                    (crate::eval::V::Int(a), "cmp", Some(crate::eval::V::Int(b))) => Some(crate::eval::V::Enum(format!("Ordering::{}", match a.cmp(b) { std::cmp::Ordering::Less => "Less", std::cmp::Ordering::Equal => "Equal", std::cmp::Ordering::Greater => "Greater" }))),
+                    _ => None,
+                }
+            };
+            let mut bad = vec![];
+            for (dt, tname) in [(-1i128, "Less"), (0, "Equal"), (1, "Greater")] {
+                for (ds, sname) in [(-1i128, "Less"), (0, "Equal"), (1, "Greater")] {
+                    let mut mch = crate::eval::Machine::new(&methods);
+                    mch.set("self.tabs", crate::eval::V::Int(5 + dt));
+                    mch.set("other.tabs", crate::eval::V::Int(5));
+                    mch.set("self.spaces", crate::eval::V::Int(5 + ds));
+                    mch.set("other.spaces", crate::eval::V::Int(5));
+                    mch.set("location", crate::eval::V::Unit);
+                    let want: Result<&str, ()> = match (dt, ds) {
+                        (0, _) => Ok(sname),
+                        (1, s) if s >= 0 => Ok("Greater"),
+                        (-1, s) if s <= 0 => Ok("Less"),
+                        _ => Err(()),
+                    };
+                    let got = mch.eval_block(&m.block);
+                    let ok = match (&got, want) {
+                        (Ok(crate::eval::V::Enum(e)), Ok(w)) => e == &format!("Ordering::{}", w),
+                        (Ok(crate::eval::V::Enum(e)), Err(())) => e.starts_with("Err(") && e.contains("LexicalErrorType::TabError") && e.contains("location"),
+                        _ => false,
+                    };
+                    if !ok {
+                        bad.push(format!("tabs {} / spaces {} -> {:?}", tname, sname, got));
+                    }
+                }
+            }
+            if bad.is_empty() {
+                cx.ok(rule, "compare_strict interpreted over the 3x3 partition: equal tabs => compare spaces; tabs and spaces pointing in opposite directions => TabError; otherwise the direction of the tabs");
             } else {
-                cx.fail(rule, &format!("{}/compare_strict", rule), &lx.loc(m), "compare_strict does not return TabError in both mixed-direction branches (or compares the wrong fields)");
+                cx.fail(rule, &format!("{}/compare_strict", rule), &lx.loc(m), &format!("compare_strict does not return TabError in both mixed-direction branches (or compares the wrong fields): {}", bad.join("; ")));
             }
         }
     }
@@ -319,25 +411,40 @@ fn indentation_errors(cx: &mut Ctx) {
         None => cx.anchor_missing(rule, "handle_indentations"),
         Some(m) => {
             let t = sm::tsx(&m.block);
-            if t.matches("indentation_level.compare_strict(current_indentation,self.get_pos())?").count() == 2 {
-                cx.ok(rule, "both comparisons go through compare_strict(..)? (errors propagate)");
+            // both comparisons: compare_strict(<indentations.current()>, get_pos())? — directly or through a local
+            let direct = t.matches("indentation_level.compare_strict(self.indentations.current(),self.get_pos())?").count();
+            let via_local = t.matches("=self.indentations.current();").count().min(t.matches("indentation_level.compare_strict(current_indentation,self.get_pos())?").count());
+            if direct + via_local == 2 && t.matches(".compare_strict(").count() == 2 {
+                cx.ok(rule, "both comparisons go through compare_strict(indentations.current(), get_pos())? (errors propagate)");
             } else {
-                cx.fail(rule, &format!("{}/uses-compare_strict", rule), &lx.loc(m), "handle_indentations does not compare both times with compare_strict(current_indentation, get_pos())?");
+                cx.fail(rule, &format!("{}/uses-compare_strict", rule), &lx.loc(m), "handle_indentations does not compare both times with compare_strict(indentations.current(), get_pos())?");
             }
-            let loop_ok = t.contains("Ordering::Less=>{self.indentations.pop();lettok_pos=self.get_pos();self.emit((Tok::Dedent,TextRange::empty(tok_pos)));}Ordering::Equal=>{break;}Ordering::Greater=>{returnErr(LexicalError{error:LexicalErrorType::IndentationError,location:self.get_pos(),});}");
+            // the dedent loop: a `loop` whose decision on the ordering has exactly: Less => pop + Dedent, Equal => break, Greater => Err(IndentationError)
+            let mut loop_ok = false;
+            sm::for_each_expr_in_block(&m.block, |e| {
+                if let syn::Expr::Loop(l) = e {
+                    sm::for_each_expr_in_block(&l.body, |x| {
+                        if let syn::Expr::Match(mm) = x {
+                            let mut arms: BTreeMap<String, String> = BTreeMap::new();
+                            for a in &mm.arms {
+                                arms.insert(sm::tsc(&a.pat), sm::tsc(sm::unblock(&a.body)).trim_end_matches(';').to_string());
+                            }
+                            let less = arms.get("Ordering::Less").map_or(false, |b| b.starts_with("{self.indentations.pop();") && b.contains("self.emit((Tok::Dedent,"));
+                            let equal = arms.get("Ordering::Equal").map_or(false, |b| b == "break" || b == "{break;}");
+                            let greater = arms.get("Ordering::Greater").map_or(false, |b| b.contains("returnErr(LexicalError{") && b.contains("LexicalErrorType::IndentationError"));
+                            if arms.len() == 3 && less && equal && greater {
+                                loop_ok = true;
+                            }
+                        }
+                    });
+                }
+            });
             if loop_ok {
                 cx.ok(rule, "dedent loop: Less => pop+Dedent, Equal => break, Greater => Err(IndentationError)");
             } else {
                 cx.fail(rule, &format!("{}/dedent-loop", rule), &lx.loc(m), "the dedent loop does not end only on Equal / return IndentationError on Greater");
             }
         }
-    }
-    // Indentations::current is what is compared
-    let t = sm::tsx(&lx.file);
-    if t.matches("letcurrent_indentation=self.indentations.current();").count() == 2 {
-        cx.ok(rule, "both comparisons are against indentations.current()");
-    } else {
-        cx.fail(rule, &format!("{}/current", rule), &lx.rel, "comparisons are not against indentations.current()");
     }
 }
 
@@ -400,15 +507,42 @@ fn numeric_shape(cx: &mut Ctx) {
     let Some(lx) = lr::load_lexer(cx, rule) else { return };
     let Some(f) = lr::lexer_method(&lx, "lex_normal_number") else { return cx.anchor_missing(rule, "lex_normal_number") };
     let t = sm::tsx(&f.block);
-    let err = "ifself.window[1]==Some('_'){returnErr(LexicalError{error:LexicalErrorType::OtherError(\"Invalid Syntax\".to_owned()),location:self.get_pos(),});}";
-    // three occurrences, each immediately before the consuming push of the '.', 'e', sign
-    let ctxs = [
-        (format!("ifself.window[0]==Some('.'){{{}value_text.push(self.next_char().unwrap());", err), "._"),
-        (format!("ifletSome('e'|'E')=self.window[0]{{{}value_text.push(self.next_char().unwrap().to_ascii_lowercase());", err), "e_"),
-        (format!("ifmatches!(self.window[0],Some('-'|'+')){{{}value_text.push(self.next_char().unwrap());}}", err), "e+_"),
-    ];
-    for (frag, name) in ctxs {
-        if t.contains(&frag) {
+    // each of the branches that consume '.', the exponent marker and the exponent sign starts with a look-ahead on
+    // window[1] that returns Err("Invalid Syntax") for '_' BEFORE anything is consumed
+    let classes: [(&str, Vec<char>); 3] = [("._", vec!['.']), ("e_", vec!['E', 'e']), ("e+_", vec!['+', '-'])];
+    let mut seen: BTreeSet<&str> = BTreeSet::new();
+    sm::for_each_expr_in_block(&f.block, |e| {
+        let Some((scrut, brs)) = lr::branches(e) else { return };
+        if scrut != "self.window[0]" {
+            return;
+        }
+        for b in &brs {
+            let lr::CPat::Chars(cs) = &b.pat else { continue };
+            for (name, want) in &classes {
+                let want_set: BTreeSet<char> = want.iter().copied().collect();
+                if *cs != want_set {
+                    continue;
+                }
+                let first_consume = b.body.iter().position(|st| sm::tsc(*st).contains("self.next_char()"));
+                let guard_at = b.body.iter().position(|st| match st {
+                    syn::Stmt::Expr(x, _) => lr::branches(x).map_or(false, |(sc, bb)| {
+                        sc == "self.window[1]" && bb.first().map_or(false, |g| g.pat == lr::CPat::Chars(['_'].into_iter().collect()) && {
+                            let body: String = g.body.iter().map(|s| sm::tsc(*s)).collect();
+                            body.starts_with("returnErr(LexicalError{") && body.contains("\"Invalid Syntax\"")
+                        })
+                    }),
+                    _ => false,
+                });
+                if let (Some(g), Some(c)) = (guard_at, first_consume) {
+                    if g < c {
+                        seen.insert(name);
+                    }
+                }
+            }
+        }
+    });
+    for (name, _) in &classes {
+        if seen.contains(name) {
             cx.ok(rule, &format!("`{}` rejected before consuming", name));
         } else {
             cx.fail(rule, &format!("{}/{}", rule, name), &lx.loc(f), &format!("the `{}` check is missing or no longer precedes the consumption", name));
@@ -425,7 +559,7 @@ fn numeric_shape(cx: &mut Ctx) {
         None => cx.anchor_missing(rule, "lex_number_radix"),
     }
     match lr::lexer_method(&lx, "radix_run") {
-        Some(r) if sm::tsx(&r.block).contains("}elseifself.window[0]==Some('_')&&Lexer::<T>::is_digit_of_radix(self.window[1],radix){self.next_char();}else{break;}") => cx.ok(rule, "radix_run: `_` is consumed only when a digit of the radix follows"),
+        Some(r) if sm::tsx(&r.block).contains("ifself.window[0]==Some('_')&&Lexer::<T>::is_digit_of_radix(self.window[1],radix){self.next_char();}else{break;}") => cx.ok(rule, "radix_run: `_` is consumed only when a digit of the radix follows"),
         Some(r) => cx.fail(rule, &format!("{}/underscore", rule), &lx.loc(r), "radix_run consumes an underscore that is not followed by a digit of the radix"),
         None => cx.anchor_missing(rule, "radix_run"),
     }
@@ -443,7 +577,7 @@ fn string_rules(cx: &mut Ctx) {
         let t = sm::tsx(&ps.block);
         let p_mix = t.find("ifhas_bytes&&num_bytes<values.len(){returnErr(LexicalError{error:LexicalErrorType::OtherError(\"cannot mix bytes and nonbytes literals\".to_owned(),),location:initial_start,});}");
         let p_dec = t.find("parse_string(");
-        let defs = t.contains("letnum_bytes=values.iter().filter(|(_,(_,kind,..),_)|kind.is_any_bytes()).count();lethas_bytes=num_bytes>0;");
+        let defs = t.contains("letnum_bytes=values.iter().filter(|(_,(_,kind,..),_)|kind.is_any_bytes()).count();lethas_bytes=0<num_bytes;");
         match (p_mix, p_dec) {
             (Some(a), Some(b)) if a < b && defs => cx.ok(rule, "mixing bytes and text literals is rejected before any literal is decoded"),
             _ => cx.fail(rule, &format!("{}/mixing", rule), &s.loc(ps), "the bytes/text mixing check is missing, altered, or comes after decoding"),
@@ -487,7 +621,7 @@ fn string_rules(cx: &mut Ctx) {
         }
     }
     // nesting limit
-    if whole.contains("ifnested>=2{returnErr(FStringError::new(ExpressionNestedTooDeeply,self.get_pos()).into());}") {
+    if whole.contains("if2<=nested{returnErr(FStringError::new(ExpressionNestedTooDeeply,self.get_pos()).into());}") {
         cx.ok(rule, "parse_fstring: nested >= 2 => ExpressionNestedTooDeeply");
     } else {
         cx.fail(rule, &format!("{}/nesting-limit", rule), &s.rel, "parse_fstring does not reject nesting >= 2");
